@@ -45,6 +45,9 @@ def run(ck, ctx):
     ck.rule("R05.7", "a queue-time command error always aborts: on the in_transaction edge of the command-parse error arm every "
                      "path sets transaction_errors = true; unknown commands in MULTI do the same")
     ck.nd("equality with sequential execution; isolation against other connections (EXEC is a sequence of independent shard awaits)")
+    ck.rule("R05.11", "the executor's EXEC leaves queuing mode before it replays: `in_transaction = false` dominates the execution of the queued commands "
+                      "(a queued command that re-enters the executor - a script's redis.call - must be executed, not queued again and dropped when "
+                      "EXEC clears the queue) (shared with C16 R16.7)")
     ck.rule("R05.10", "`differs from its value when WATCH was issued` is decided by exact structural equality: the PartialEq impls of Value and "
                       "of every stored type under src/redis/data are derived, or compare field against the same field with `==` and nothing else "
                       "(no tolerance, no arithmetic, no projection of a subset of the fields): a modification that the comparison cannot see "
@@ -56,6 +59,9 @@ def run(ck, ctx):
         _rules(ck, prog, cfg)
         _executor_twin(ck, prog, cfg)
         _r0510(ck, prog, cfg)
+        from . import c16 as _c16
+        from .core import Only as _Only16
+        _c16._r167(_Only16(ck, {"R16.7": "R05.11"}), prog, cfg)
 
 
 def _self_field(fn, place_or_operand, is_place=False):
